@@ -17,6 +17,11 @@ ASSUMPTIONS = ['callbacks do not raise (the statement does not define delivery a
                'nested emits are cut off identically on both sides at depth 3 / 24 nested emits per top-level operation, to keep re-emission finite']
 
 NAMES = ['na', 'nb', 'nc']
+NAMES0 = ['', 'nb', 'nc']        # the empty string is an event name like any other (impl 'emitter0')
+
+
+def names_of(impl):
+    return PNAMES if impl == 'parser' else (NAMES0 if impl == 'emitter0' else NAMES)
 PNAMES = ['callCellValue', 'callRangeValue', 'callVariable', 'callFunction']
 NCB = 5
 MAX_DEPTH = 3
@@ -164,7 +169,7 @@ def check(case):
     scripts, ops = case['scripts'], case['ops']
     real = Driver(make_real(case['impl']), scripts)
     model = Driver(ModelEmitter(), scripts)
-    names = PNAMES if case['impl'] == 'parser' else NAMES
+    names = names_of(case['impl'])
     for step, act in enumerate(ops):
         try:
             real.top(act)
@@ -233,7 +238,7 @@ def key(case):
 
 def case_strategy():
     def build(impl):
-        nm = PNAMES if impl == 'parser' else NAMES
+        nm = names_of(impl)
         names = st.sampled_from([nm[0], nm[0], nm[0], nm[1], nm[1], nm[2]])
         cbid = st.integers(0, NCB - 1)
         ctx = st.one_of(st.just([]), st.just([]), st.lists(st.tuples(st.sampled_from(['kx', 'ky']), st.integers(0, 3)), max_size=2, unique_by=lambda t: t[0]).map(lambda l: [list(t) for t in l]))
@@ -248,13 +253,13 @@ def case_strategy():
         ops = st.tuples(st.lists(sub, min_size=2, max_size=6), st.lists(rnd, min_size=1, max_size=8)).map(
             lambda t: t[0] + [a for r in t[1] for a in r])
         return st.fixed_dictionaries({'impl': st.just(impl), 'scripts': scripts, 'ops': ops})
-    return st.sampled_from(['emitter', 'emitter', 'parser']).flatmap(build)
+    return st.sampled_from(['emitter', 'emitter', 'emitter0', 'parser', 'parser']).flatmap(build)
 
 
 LAWS = [
     Law('lockstep', check, strategy=case_strategy(), nontrivial=nontrivial, key=key, classes=classes,
         required=('nested-same-name', 'during-delivery:on', 'during-delivery:off', 'during-delivery:offcb', 'during-delivery:once',
-                  'duplicate-subscription', 'op:once', 'op:offcb', 'impl:parser', 'impl:emitter'),
+                  'duplicate-subscription', 'op:once', 'op:offcb', 'impl:parser', 'impl:emitter', 'impl:emitter0'),
         quick=4000, thorough=160000, shards=(8, 16),
         rule='history = 3-38 top-level operations (2-6 subscriptions, then 1-8 rounds of up to 3 arbitrary operations followed by an emit) (on/once with or without context, off(name), off(name,callback), emit(name,args)) over 3 names x 5 callbacks (two of them bound methods of a host object, fetched anew for every on/once/off, so equal but not identical); '
              'each callback carries a generated script of up to 3x3 operations it performs when invoked; oracle = reference emitter run in lockstep, '
